@@ -220,6 +220,15 @@ template <typename PSET>
 inline void
 Pointset_Powerset<PSET>::intersection_assign(const Pointset_Powerset& y) {
   Pointset_Powerset& x = *this;
+  // Dimension-compatibility check
+  // (the disjuncts would not detect it if there are none).
+  if (x.space_dimension() != y.space_dimension()) {
+    std::ostringstream s;
+    s << "PPL::Pointset_Powerset<PSET>::intersection_assign(y):\n"
+      << "this->space_dimension() == " << x.space_dimension() << ", "
+      << "y.space_dimension() == " << y.space_dimension() << ".";
+    throw std::invalid_argument(s.str());
+  }
   x.pairwise_apply_assign(y,
                           Det_PSET::lift_op_assign(std::mem_fun_ref(&PSET::intersection_assign)));
 }
